@@ -355,6 +355,16 @@ class ForkInterp:
             if 'sub' in p:
                 self.bind(p['sub'], v, env)
             return
+        if k == 'p_tuple' and isinstance(v, tuple) and v and v[0] == 'tup' and len(v[1]) == len(p.get('pats', [])):
+            for pp, vv in zip(p['pats'], v[1]):
+                self.bind(pp, vv, env)
+            return
+        if k == 'p_struct' and isinstance(v, tuple) and v and v[0] == 'struct':
+            for f in p.get('fields', []):
+                self.bind(f['pat'], v[2].get(f['name'], OPAQUE), env)
+            return
+        if k in ('p_ref', 'p_deref') and 'pat' in p:
+            return self.bind(p['pat'], v, env)
         for n in walk(p):
             if n.get('k') == 'p_bind':
                 env[n['name']] = OPAQUE
